@@ -15,7 +15,9 @@ PALETTE = ["C", "Ce", "Co", "O", "Os", "H", "He", "Hf", "N", "Na", "Ne", "S", "S
 DECIMALS = [0.5, -0.25, 1.5, 2.125, -3.0625, 10.0001]
 SEPS = ["", " ", "|"]
 SACCH = ["Hex", "HexNAc", "Fuc", "Neu5Ac", "Pen", "HexN", "HexS", "HexP", "d-Hex", "a-Hex", "Sug", "Tri", "Tet", "Hep", "Oct", "Non", "Dec", "Kdn", "Neu", "Neu5Gc",
-         "phosphate", "sulfate", "Me", "Acetyl", "HexNS", "HexNAc(S)", "en,a-Hex"]
+         "phosphate", "sulfate", "Me", "Acetyl", "HexNS", "HexNAc(S)", "en,a-Hex",
+         # synonyms: written and parsed back under the name they were given
+         "dHex", "NeuAc", "NeuGc", "Fucose", "Pent", "HexA", "aHex", "Phos", "Sulf"]
 
 
 class _PatternProxy:
